@@ -991,6 +991,11 @@ inline model::MLib library(Rng& r, const Cfg& cfg) {
     if (cfg.mode == canon::GDS && r.chance(0.04)) c.span = 1000000000;  // near the 32-bit limit of the format
     if (cfg.mode == canon::OAS && r.chance(0.04)) c.span = (dg_t)1 << 38;  // OASIS integers are not limited to 32 bits
     m.name = r.chance(0.5) ? "LIB" : ident(r, 1, 14);
+    if (r.chance(0.08)) {
+        // any printable character may stand in a library name: conversion specifications, quotes, a backslash
+        static const char* const odd[] = {"%s", "%n", "100%scaled", "%d%s%s", "\\n", "\"q\"", "a b", "%%", "%5$s"};
+        m.name += odd[r.below(9)];
+    }
     if (cfg.long_strings && r.chance(0.15)) {
         // library names as long as a record allows (GDSII only stores them; OASIS has no library name)
         static const int lens[] = {127, 128, 255, 256, 1019, 1020, 1021, 1022, 4095, 4096, 32767, 32768, 65529, 65530};
